@@ -210,6 +210,7 @@ StringDictionaryHASHUFFDAC::StringDictionaryHASHUFFDAC(IteratorDictString *it,
 
   dac = new DAC_BVLS(tamCode, nLevels, &levelsIndex, &rankLevels, dacseq, bS);
   delete bS;
+  hash->setData(dac);
 
   bytesStrings++;
 
